@@ -563,7 +563,35 @@ func runNative(lr *loadResult, reports []*harnessReport, tier string, seed int64
 				}
 			}
 		} else {
-			outs, err = runNativeCases(lr, pkg, cases, false)
+			// counterexamples of termination clauses kill the process they run in (stack overflow): each
+			// runs alone, so that the batch of the other cases survives
+			var isolated, batch []nativeCase
+			for _, c := range cases {
+				if r := refs[c.ID]; r.kind != "diff" && strings.Contains(r.v.Clause, "terminates") {
+					isolated = append(isolated, c)
+				} else {
+					batch = append(batch, c)
+				}
+			}
+			outs = map[string]*nativeOutcome{}
+			if len(batch) > 0 {
+				outs, err = runNativeCases(lr, pkg, batch, false)
+				if outs == nil {
+					outs = map[string]*nativeOutcome{}
+				}
+			}
+			for _, c := range isolated {
+				o1, e1 := runNativeCases(lr, pkg, []nativeCase{c}, false)
+				if e1 == nil {
+					for k, v := range o1 {
+						outs[k] = v
+					}
+					continue
+				}
+				if strings.Contains(e1.Error(), "stack overflow") || strings.Contains(e1.Error(), "goroutine stack exceeds") {
+					outs[c.ID] = &nativeOutcome{ID: c.ID, Outcome: "fatal: stack overflow", Failed: []string{refs[c.ID].v.Clause}}
+				}
+			}
 		}
 		if err != nil && !raceMode {
 			// the batch died (e.g. a non-terminating recursion overflowed the stack of the test
